@@ -62,6 +62,8 @@ def gen_plan(seed, tier):
          "msl": r.pick([14, 128, 128, 1500]),
          # the component's own option: forward link-local frames like any other
          "transparent": r.chance(0.2),
+         # --hold-down: no flooding during the first N seconds of a connection
+         "hold_down": r.pick([0, 0, 0, 0, 2, 4]),
          "segment": r.chance(0.5), "delay": r.chance(0.5),
          "recv_mode": r.pick(["all", "all", "choose"]),
          "faults": r.chance(0.25), "link_delay": r.pick([0, 0, 3])}
@@ -183,7 +185,10 @@ def _drive(sim, plan, known, hit):
   net.nexus.miss_send_len = cfg["msl"]
   net.link_delay_ticks = cfg.get("link_delay", 0)
   L2._flood_delay = 0
-  L2.launch(transparent=bool(cfg.get("transparent")))
+  L2.launch(transparent=bool(cfg.get("transparent")),
+            hold_down=int(cfg.get("hold_down", 0)))
+  if cfg.get("hold_down"):
+    sim.probes["hold_down_mode"] += 1
   if cfg.get("transparent"):
     sim.probes["transparent_mode"] += 1
   nsw = cfg["nsw"]
@@ -241,6 +246,10 @@ def _drive(sim, plan, known, hit):
   def process_packet_ins():
     """advance the per-switch model over packet-ins sent so far"""
     sight = None
+    arr_time = {}
+    if cfg.get("hold_down"):
+      for _seq, _t, _dpid, _port, _raw in net.arrivals:
+        arr_time[(_dpid, _tag_of(_raw))] = _t
     for i, ns in net.switches.items():
       pis = ns.packet_ins
       while done_pi[i] < len(pis):
@@ -289,6 +298,22 @@ def _drive(sim, plan, known, hit):
                 stale.append((i, t, dst, p, prior[-1], "returned"))
             else:
               stale.append((i, t, dst, p, prior[-1], "never-learned"))
+        hd = cfg.get("hold_down", 0)
+        if hd and exp and (dst[0] & 1 or dst not in learned[i]
+                           or (filtered and cfg.get("transparent"))):
+          # a flood: suppressed while the connection is younger than the
+          # hold-down (the buffer must be released all the same)
+          con = net.nexus.connections.get(i)
+          t_arr = arr_time.get((i, t))
+          age = None if (con is None or t_arr is None or
+                         con.connect_time is None) \
+              else t_arr - con.connect_time
+          if age is None or abs(age - hd) < 0.3:
+            expected[(i, t)] = ("any", [set(), exp], in_port)
+            continue
+          if age < hd:
+            sim.probes["flood_held_down"] += 1
+            exp = set()
         expected[(i, t)] = ("exact", exp, in_port)
 
   def check_all(ctx):
@@ -333,7 +358,13 @@ def _drive(sim, plan, known, hit):
         raise Violation("port-twice", "%s: switch %d emitted frame tag %d "
                         "on ports %r" % (ctx, sw, tg, sorted(out)))
       e = expected.get(key)
-      if e is not None:
+      if e is not None and e[0] == "any":
+        if not any(set(out) == x for x in e[1]):
+          raise Violation("wrong-ports", "%s: switch %d, frame tag %d: egress "
+                          "ports %r, acceptable %r"
+                          % (ctx, sw, tg, sorted(out),
+                             [sorted(x) for x in e[1]]))
+      elif e is not None:
         if set(out) != e[1]:
           raise Violation("wrong-ports", "%s: switch %d, frame tag %d (dst "
                           "%s) from port %d caused a packet-in; egress ports "
